@@ -179,6 +179,15 @@ def listing(lines):
 
 # --------------------------------------------------------------------------- raw walk
 
+_HEX = set("0123456789abcdef")
+
+
+def _is_bucket_name(parts):
+    """index-v5/<2 hex>/<2 hex>/<36 hex>: anything else under index-v5 is no key's bucket"""
+    return (len(parts[1]) == 2 and len(parts[2]) == 2 and len(parts[3]) == 36
+            and all(set(x) <= _HEX for x in parts[1:4]))
+
+
 def walk_cache(root):
     """Raw inventory of a cache directory: everything that is there, unparsed."""
     inv = {"buckets": {}, "content": {}, "tmp": [], "other": [], "has_index": False,
@@ -194,7 +203,7 @@ def walk_cache(root):
                     fp = os.path.join(dp, fn)
                     rel = os.path.relpath(fp, root)
                     parts = rel.split(os.sep)
-                    if len(parts) == 4 and not os.path.islink(fp):
+                    if len(parts) == 4 and not os.path.islink(fp) and _is_bucket_name(parts):
                         with open(fp, "rb") as f:
                             inv["buckets"][rel] = f.read()
                     else:
